@@ -331,6 +331,7 @@ struct Key {
     kept: Vec<u8>,
     proc_offset: usize,
     read_offset: usize,
+    discarding: bool,
     obs: u64,
 }
 
@@ -353,7 +354,7 @@ fn bfs_stream(st: &mut St, s: &Stream, n: usize) {
         let obs = log::with(|l| Obs::from_log(l, K::TWrite));
         let ls = o.last_state;
         Some((
-            Key { pos, kept: ls.kept, proc_offset: ls.proc_offset, read_offset: ls.read_offset, obs: obs_digest(&obs) },
+            Key { pos, kept: ls.kept, proc_offset: ls.proc_offset, read_offset: ls.read_offset, discarding: ls.discarding, obs: obs_digest(&obs) },
             obs,
         ))
     };
